@@ -97,8 +97,36 @@ RandomAccessIterator3 parallel_multiway_merge_base(
 
     size_t num_seqs = seqs_ne.size();
 
-    if (total_size == 0 || num_seqs == 0)
+    if (total_size == 0 || num_seqs == 0 || size == 0)
         return target;
+
+    // cut[s] is where the s-th non-empty input sequence continues after the
+    // merge. If fewer elements than available are requested, restrict the
+    // sequences to the elements that belong to the first \c size ones of the
+    // merged order, such that the splitting below always sees the tight case.
+    std::vector<RandomAccessIterator> cut(num_seqs);
+    if (static_cast<DiffType>(size) < total_size)
+    {
+        multisequence_partition(seqs_ne.begin(), seqs_ne.end(),
+                                static_cast<DiffType>(size), cut.begin(), comp);
+
+        std::vector<RandomAccessIteratorPair> seqs_cut;
+        seqs_cut.reserve(num_seqs);
+        for (size_t s = 0; s < num_seqs; ++s)
+        {
+            if (seqs_ne[s].first != cut[s])
+                seqs_cut.push_back(
+                    RandomAccessIteratorPair(seqs_ne[s].first, cut[s]));
+        }
+        seqs_ne.swap(seqs_cut);
+        num_seqs = seqs_ne.size();
+        total_size = static_cast<DiffType>(size);
+    }
+    else
+    {
+        for (size_t s = 0; s < num_seqs; ++s)
+            cut[s] = seqs_ne[s].second;
+    }
 
     if (static_cast<DiffType>(num_threads) > total_size)
         num_threads = total_size;
@@ -174,7 +202,7 @@ RandomAccessIterator3 parallel_multiway_merge_base(
     for (RandomAccessIteratorIterator ii = seqs_begin; ii != seqs_end; ++ii)
     {
         if (ii->first != ii->second)
-            ii->first = chunks[num_threads - 1][count_seqs++].second;
+            ii->first = cut[count_seqs++];
     }
 
     return target + size;
